@@ -70,7 +70,7 @@ func (c *C18Case) NTKey() string {
 	return ""
 }
 
-var c18SharedOps = []string{"At", "Slice", "Iterate", "MultIterate", "PrivateNpy", "PrivateSprintBig", "MinBetweenScalar", "MaxBetweenScalar", "Add", "AddShared", "AddScalar", "ScalarSub", "LtScalar", "Lt", "Sum", "Max", "Min", "Argmax", "Argmin", "ArgAll", "PrivateRefused", "PrivateReuse", "PrivateRefused", "PrivateOneElement", "PrivateOneElement", "PrivateScalarOp", "PkgTranspose", "Inner", "MatVecMul", "MatMul", "Dot", "TensorMul", "Clone", "Materialize", "Sprint", "T-safe", "Repeat", "Stack", "Apply", "PrivateUnsafe", "PrivateReturn", "PrivateScalarOther", "PrivateTensorMul"}
+var c18SharedOps = []string{"At", "Slice", "Iterate", "MultIterate", "PrivateNpy", "PrivateSprintBig", "MinBetweenScalar", "MaxBetweenScalar", "Add", "AddShared", "AddScalar", "ScalarSub", "LtScalar", "Lt", "Sum", "Max", "Min", "Argmax", "Argmin", "ArgAll", "PrivateRefused", "PrivateReuse", "PrivateRefused", "PrivateOneElement", "PrivateOneElement", "PrivateScalarOp", "PkgTranspose", "PrivateTranspose", "PrivateTranspose", "PrivateProduct", "Inner", "MatVecMul", "MatMul", "Dot", "TensorMul", "Clone", "Materialize", "Sprint", "T-safe", "Repeat", "Stack", "Apply", "PrivateUnsafe", "PrivateReturn", "PrivateScalarOther", "PrivateTensorMul"}
 
 // runOp performs one operation and returns a digest of what it delivered.
 func c18RunOp(o C18Op, shared []*tensor.Dense, sharedM []Arr, priv **tensor.Dense) (out string) {
@@ -312,11 +312,43 @@ func c18RunOp(o C18Op, shared []*tensor.Dense, sharedM []Arr, priv **tensor.Dens
 				r = engFresh("f64", []int{7}, 1)
 			}
 		}
-		_, err := tensor.Add(a, b2, tensor.WithReuse(r))
+		var err error
+		switch (o.Arg / 3) % 4 {
+		case 1:
+			// the products have their own option handling
+			x, y := engFresh("f64", []int{2}, 1), engFresh("f64", []int{3}, 2)
+			_, err = x.Outer(y, tensor.WithReuse(engFresh("f64", []int{5}, 0)))
+		case 2:
+			x, y := engFresh("f64", []int{2, 2}, 1), engFresh("f64", []int{2, 2}, 2)
+			_, err = x.MatMul(y, tensor.WithReuse(engFresh("f64", []int{3}, 0)))
+		case 3:
+			x, y := engFresh("f64", []int{2, 2}, 1), engFresh("f64", []int{2}, 2)
+			_, err = x.MatVecMul(y, tensor.WithReuse(engFresh("f64", []int{3}, 0)))
+		default:
+			_, err = tensor.Add(a, b2, tensor.WithReuse(r))
+		}
 		if err == nil {
 			return "accepted"
 		}
 		return "refused"
+	case "PrivateProduct":
+		// products with both a reuse and an increment tensor, on private tensors
+		x, y := engFresh("f64", []int{2, 2}, int64(o.Arg%4)), engFresh("f64", []int{2}, 2)
+		inc := engFresh("f64", []int{2}, 100)
+		res, err := x.MatVecMul(y, tensor.WithIncr(inc))
+		if err == nil && res != inc {
+			return "result is not the increment tensor"
+		}
+		return dig(inc, err)
+	case "PrivateTranspose":
+		// a physical transposition of a private tensor (the data movers keep their temporaries to themselves)
+		d := []DT{dtF64, dtInt32, dtInt16, dtInt8, dtC128, dtF32}[o.Arg%6]
+		pa := seqArr(d, []int{2, 3, 2}, int64(o.Arg%5))
+		p := tensor.New(tensor.WithShape(2, 3, 2), tensor.WithBacking(mkBacking(d, pa.E)))
+		if err := p.T(1, 2, 0); err != nil {
+			return "err"
+		}
+		return dig(p, p.Transpose())
 	case "PrivateReuse":
 		a, b2, r := fresh([]int{2, 3}, int64(o.Arg%5)), fresh([]int{2, 3}, int64(o.Arg%3)), fresh([]int{2, 3}, 9)
 		if e := []string{"", "f32", "f64", ""}[(o.Arg/2)%4]; e != "" {
@@ -346,7 +378,7 @@ func c18RunOp(o C18Op, shared []*tensor.Dense, sharedM []Arr, priv **tensor.Dens
 		if o.Arg%5 == 0 {
 			opts = append(opts, tensor.AsSameType())
 		}
-		fns := []func(a, b interface{}, opts ...tensor.FuncOpt) (tensor.Tensor, error){tensor.Gte, tensor.Gt, tensor.Lte, tensor.Lt, tensor.ElEq, tensor.Add, tensor.Sub, tensor.Mul}
+		fns := []func(a, b interface{}, opts ...tensor.FuncOpt) (tensor.Tensor, error){tensor.Gte, tensor.Gt, tensor.Lte, tensor.Lt, tensor.ElEq, tensor.ElNe, tensor.Add, tensor.Sub, tensor.Mul, tensor.Div}
 		f := fns[o.Arg%len(fns)]
 		if o.Arg%2 == 0 {
 			return dig(f(p, sc, opts...))
@@ -360,8 +392,13 @@ func c18RunOp(o C18Op, shared []*tensor.Dense, sharedM []Arr, priv **tensor.Dens
 		pa := seqArr(d, []int{2, 2}, int64(o.Arg%4))
 		p := tensor.New(tensor.WithShape(2, 2), tensor.WithBacking(mkBacking(d, pa.E)))
 		sc := conv(d, int64(1+o.Arg%3))
-		if o.Arg%2 == 0 {
+		switch o.Arg % 4 {
+		case 0:
 			return dig(tensor.Mul(p, sc))
+		case 1:
+			return dig(tensor.ElNe(p, sc))
+		case 2:
+			return dig(tensor.ElEq(sc, p))
 		}
 		return dig(tensor.Sub(sc, p))
 	case "PkgTranspose":
